@@ -135,3 +135,98 @@ func staticCalleeName(c *ssa.CallCommon) string {
 	}
 	return ""
 }
+
+// controlConds returns, for every block, the conditions of all If
+// terminators the block is (transitively) control-dependent on, computed from
+// post-dominators (Ferrante/Ottenstein/Warren).
+func controlConds(fn *ssa.Function) map[*ssa.BasicBlock][]ssa.Value {
+	n := len(fn.Blocks)
+	exit := n // virtual exit
+	succ := make([][]int, n+1)
+	for _, b := range fn.Blocks {
+		if len(b.Succs) == 0 {
+			succ[b.Index] = []int{exit}
+		}
+		for _, s := range b.Succs {
+			succ[b.Index] = append(succ[b.Index], s.Index)
+		}
+	}
+	// pdom[i] = set of nodes post-dominating i
+	full := make([]bool, n+1)
+	for i := range full {
+		full[i] = true
+	}
+	pdom := make([][]bool, n+1)
+	for i := 0; i <= n; i++ {
+		pdom[i] = append([]bool{}, full...)
+	}
+	pdom[exit] = make([]bool, n+1)
+	pdom[exit][exit] = true
+	changed := true
+	for changed {
+		changed = false
+		for i := n - 1; i >= 0; i-- {
+			nw := append([]bool{}, full...)
+			if len(succ[i]) == 0 {
+				nw = make([]bool, n+1)
+			}
+			for _, s := range succ[i] {
+				for k := range nw {
+					nw[k] = nw[k] && pdom[s][k]
+				}
+			}
+			nw[i] = true
+			for k := range nw {
+				if nw[k] != pdom[i][k] {
+					changed = true
+				}
+			}
+			pdom[i] = nw
+		}
+	}
+	// direct control dependence
+	cd := make([]map[int]bool, n)
+	for i := range cd {
+		cd[i] = map[int]bool{}
+	}
+	for d := 0; d < n; d++ {
+		if len(succ[d]) < 2 {
+			continue
+		}
+		for _, s := range succ[d] {
+			for b := 0; b < n; b++ {
+				// b post-dominates s (or is s) and does not strictly post-dominate d
+				if (b == s || (s != exit && pdom[s][b])) && !(b != d && pdom[d][b]) {
+					cd[b][d] = true
+				}
+			}
+		}
+	}
+	// transitive closure
+	for changed := true; changed; {
+		changed = false
+		for b := 0; b < n; b++ {
+			for d := range cd[b] {
+				for d2 := range cd[d] {
+					if !cd[b][d2] {
+						cd[b][d2] = true
+						changed = true
+					}
+				}
+			}
+		}
+	}
+	res := map[*ssa.BasicBlock][]ssa.Value{}
+	for b := 0; b < n; b++ {
+		for d := range cd[b] {
+			blk := fn.Blocks[d]
+			if len(blk.Instrs) == 0 {
+				continue
+			}
+			if ifi, ok := blk.Instrs[len(blk.Instrs)-1].(*ssa.If); ok {
+				res[fn.Blocks[b]] = append(res[fn.Blocks[b]], ifi.Cond)
+			}
+		}
+	}
+	return res
+}
